@@ -534,14 +534,11 @@ Definition crash (s : stage) : stage :=
 Definition comp_to_obj (n : name) (c : comp) (st : Z) : ffile :=
   mkff n (c_renamed c) (c_prev c) (c_size c) (c_hash c) st 0 false false 0.
 
-Definition recover_one (acc : stage * list nat * list nat) (kv : name * comp)
+(* the companion of a name with no held (.wait) body: complete body -> validate;
+   complete partial -> rename and validate; nothing staged -> orphaned companion *)
+Definition recover_rest (s : stage) (fin val : list nat) (n : name) (c : comp)
   : stage * list nat * list nat :=
-  let '(s, fin, val) := acc in
-  let '(n, c) := kv in
-  if ahas n (waits s) then
-    let o := length (heap s) in
-    (set_heap (heap s ++ [comp_to_obj n c ST_VALIDATED]) s, fin ++ [o], val)
-  else if ahas n (fulls s) then
+  if ahas n (fulls s) then
     let o := length (heap s) in
     (set_heap (heap s ++ [comp_to_obj n c ST_RECEIVED]) s, fin, val ++ [o])
   else match alookup n (parts s) with
@@ -560,6 +557,23 @@ Definition recover_one (acc : stage * list nat * list nat) (kv : name * comp)
                      | None => s end in
            (set_cmps (aremove n (cmps s1)) s1, fin, val)
        end.
+
+(* a held (.wait) body is put away under the companion's identity only if it hashes
+   to the companion's hash (fix "Recover checks the held file against its companion":
+   the first part of a newer version of the name rewrites the companion); a body
+   that does not match is removed and the companion is treated as above *)
+Definition recover_one (acc : stage * list nat * list nat) (kv : name * comp)
+  : stage * list nat * list nat :=
+  let '(s, fin, val) := acc in
+  let '(n, c) := kv in
+  match alookup n (waits s) with
+  | Some b =>
+      if name_eqb (H b) (c_hash c) then
+        let o := length (heap s) in
+        (set_heap (heap s ++ [comp_to_obj n c ST_VALIDATED]) s, fin ++ [o], val)
+      else recover_rest (set_waits (aremove n (waits s)) s) fin val n c
+  | None => recover_rest s fin val n c
+  end.
 
 (* a complete, not yet validated body whose version the log (loaded into the
    cache) knows as put away is a retransmission that was in flight when the
